@@ -371,9 +371,15 @@ pub fn execute(texts: &[(PathBuf, String)], alts: &[String], e: &C11Exec, caller
         }
     }
     let caller_of = |i: usize| e.callers.get(i).copied().unwrap_or(0);
+    // executions with an odd salt build their parser with `Parser::default()`
+    let use_default = e.salt % 2 == 1;
     let mut parser: P = callers.exec(caller_of(0), move || {
         policy.install(0);
-        P::new()
+        if use_default {
+            P::default()
+        } else {
+            P::new()
+        }
     });
     let mut step = 1u64;
     for (pos, op) in e.script.iter().enumerate() {
